@@ -237,6 +237,11 @@ type SeqOptions struct {
 	ForceCompressed map[int]int
 	// Garbage[i] replaces chunk i by these raw bytes (invalid control bytes).
 	Garbage map[int][]byte
+	// Costly[i]: LZMA chunk i consists of the most expensive legal operations -
+	// two-byte matches at far, ever-changing distances - so that its compressed
+	// size exceeds its uncompressed size by as much as the history allows (the
+	// format states no relation between the two size fields of a chunk).
+	Costly map[int]bool
 }
 
 // Realise encodes a sequence of chunk kinds (legal or not) as a byte stream.
@@ -320,7 +325,12 @@ func Realise(r *sim.Rng, kinds []string, o SeqOptions) *ChunkSeq {
 				// a chunk filled to the very limit of the 16-bit compressed-size field
 				target, isFull = 1<<16-r.Intn(3)*r.Intn(2), true
 			}
-			if o.FarChunk > 0 && ci == o.FarChunk {
+			if o.Costly[ci] {
+				costlyOps(r, e, r.Range(20, 6000))
+				if len(e.Hist) == before {
+					e.Lit(byte(r.Intn(256)))
+				}
+			} else if o.FarChunk > 0 && ci == o.FarChunk {
 				farOps(r, e, r.Range(3, 40))
 				if len(e.Hist) == before {
 					e.Lit(byte(r.Intn(256)))
@@ -618,6 +628,26 @@ func GenFar(r *sim.Rng, format string) *Far {
 	check := sim.Pick(r, []byte{refxz.CheckNone, refxz.CheckCRC32, refxz.CheckCRC64, refxz.CheckSHA256})
 	f.Stream = refxz.BuildStream(check, []refxz.BlockSpec{{Data: cs.Stream, Content: cs.Content, DictByte: db}})
 	return f
+}
+
+// costlyOps encodes up to n two-byte matches at distances spread over the upper
+// part of the available history (each with a distance slot of its own, so the
+// adaptive model learns little), with a literal now and then.
+func costlyOps(r *sim.Rng, e *reflzma.Encoder, n int) {
+	for i := 0; i < n && e.PendingBytes() < 65536-64 && e.SegmentLen() < 2<<20-4; i++ {
+		av := e.Avail()
+		if av < 2 || r.Chance(1, 30) {
+			e.Lit(byte(r.Intn(256)))
+			continue
+		}
+		// the top of the history, or a few octaves below it
+		hi := av
+		for k := 0; k < 8 && hi >= 4 && r.Bool(); k++ {
+			hi /= 2
+		}
+		d := hi - int64(r.Intn(int(hi/2+1)))
+		e.Match(d, 2)
+	}
 }
 
 // farOps encodes n matches whose distances lie beyond 8 MiB, mixed with
